@@ -27,32 +27,26 @@ theorem held_regIn {p : Pc} {x : Side} (h : p.held = some x) : ∃ c, p.regIn = 
 /-- what the mutex holder's pc promises about readers, by protocol phase -/
 inductive PK
   | quiet
-  | pre (l : Side)        -- rl = l: nothing flipped yet
-  | tog (l : Side)        -- rl flipped
-  | cl (l c : Side)       -- first wait loop
-  | w1 (l c : Side)       -- counter ¬c seen empty
-  | togc (l c : Side)     -- cl flipped, second wait loop
-  | post2 (l : Side)      -- both counters seen empty
+  | pre (l : Side)                 -- rl = l: nothing flipped yet
+  | wait (l : Side) (zL zR : Bool) -- rl flipped to ¬l; counters seen at zero since then
+  | post2 (l : Side)               -- both counters seen at zero
 
 def Pc.pk : Pc → PK
-  | .wRL _ l | .wF1 _ l | .wF1d _ l | .wRb _ l | .wRbC _ l | .wRbD _ l => .pre l
-  | .wTog _ l => .tog l
-  | .wCL _ l c => .cl l c
-  | .wW1 _ l c => .w1 l c
-  | .wTogC _ l c => .togc l c
-  | .wW2 _ l | .wF2 _ l | .wF2d _ l | .wRf _ l | .wRfC _ l | .wRfD _ l => .post2 l
+  | .wA _ l | .wF1 _ l | .wF1d _ l | .wRb _ l | .wRbC _ l | .wRbD _ l => .pre l
+  | .wWait _ l zL zR => .wait l zL zR
+  | .wF2 _ l | .wF2d _ l | .wRf _ l | .wRfC _ l | .wRfD _ l => .post2 l
   | _ => .quiet
 
-def PhaseX (rl cl : Side) (pc : Tid → Pc) : PK → Prop
+/-- registered in a counter that has been observed at zero since the flip -/
+def zReg (zL zR : Bool) (o : Option Side) : Prop := ∃ c, o = some c ∧ zOf c zL zR = true
+
+def PhaseX (rl : Side) (pc : Tid → Pc) : PK → Prop
   | .quiet => ∀ r x, (pc r).held = some x → x = rl
   | .pre l => rl = l ∧ ∀ r x, (pc r).held = some x → x = l
-  | .tog l => rl = l.flip
-  | .cl l c => rl = l.flip ∧ cl = c
-  | .w1 l c => rl = l.flip ∧ cl = c ∧ ∀ r x, (pc r).regIn = some c.flip → (pc r).held = some x → x = l.flip
-  | .togc l c => rl = l.flip ∧ cl = c.flip ∧ ∀ r x, (pc r).regIn = some c.flip → (pc r).held = some x → x = l.flip
+  | .wait l zL zR => rl = l.flip ∧ ∀ r x, zReg zL zR (pc r).regIn → (pc r).held = some x → x = l.flip
   | .post2 l => rl = l.flip ∧ ∀ r x, (pc r).held = some x → x = l.flip
 
-def Phase (s : St) (k : PK) : Prop := PhaseX s.rl s.cl s.pc k
+def Phase (s : St) (k : PK) : Prop := PhaseX s.rl s.pc k
 
 structure Inv (s : St) : Prop where
   nodupL : s.regL.Nodup
@@ -62,12 +56,15 @@ structure Inv (s : St) : Prop where
   phase : ∀ t, (s.pc t).post = true → Phase s (s.pc t).pk
   quiet : s.mtx = none → Phase s .quiet
 
-theorem inv_init : Inv init := by
+theorem inv_init (b : Bool) : Inv (init b) := by
   constructor <;> simp [init, Pc.regIn, Pc.post, Phase, PhaseX, Pc.held]
   intro t c; cases c <;> simp [St.reg]
 
 /-! ### field lemmas -/
 @[simp] theorem setPc_pc (s : St) (t u : Tid) (p : Pc) : (s.setPc t p).pc u = if u = t then p else s.pc u := rfl
+@[simp] theorem setPc_strict (s : St) (t : Tid) (p : Pc) : (s.setPc t p).strict = s.strict := rfl
+@[simp] theorem setReg_strict (s : St) (c : Side) (l : List Tid) : (s.setReg c l).strict = s.strict := by cases c <;> rfl
+@[simp] theorem setVal_strict (s : St) (x : Side) (v : List OpId) : (s.setVal x v).strict = s.strict := by cases x <;> rfl
 @[simp] theorem setPc_rl (s : St) (t : Tid) (p : Pc) : (s.setPc t p).rl = s.rl := rfl
 @[simp] theorem setPc_cl (s : St) (t : Tid) (p : Pc) : (s.setPc t p).cl = s.cl := rfl
 @[simp] theorem setPc_mtx (s : St) (t : Tid) (p : Pc) : (s.setPc t p).mtx = s.mtx := rfl
@@ -125,10 +122,10 @@ theorem side_ne_iff {a b : Side} : a ≠ b ↔ a = b.flip := by cases a <;> case
 
 /-! ### `Inv` only looks at the control part of the state -/
 theorem Inv.congr {s s' : St} (h : Inv s) (h1 : s'.regL = s.regL) (h2 : s'.regR = s.regR) (h3 : s'.pc = s.pc)
-    (h4 : s'.mtx = s.mtx) (h5 : s'.rl = s.rl) (h6 : s'.cl = s.cl) : Inv s' := by
+    (h4 : s'.mtx = s.mtx) (h5 : s'.rl = s.rl) : Inv s' := by
   obtain ⟨a, b, c, d, e, f⟩ := h
   have hreg : ∀ c, s'.reg c = s.reg c := by intro c; cases c <;> simp [St.reg, h1, h2]
-  have hph : ∀ k, Phase s' k = Phase s k := by intro k; simp only [Phase, h3, h5, h6]
+  have hph : ∀ k, Phase s' k = Phase s k := by intro k; simp only [Phase, h3, h5]
   refine ⟨by rw [h1]; exact a, by rw [h2]; exact b, ?_, ?_, ?_, ?_⟩
   · intro t c'; rw [hreg, h3]; exact c t c'
   · intro t; rw [h3, h4]; exact d t
@@ -138,10 +135,10 @@ theorem Inv.congr {s s' : St} (h : Inv s) (h1 : s'.regL = s.regL) (h2 : s'.regR 
 /-! ### reader steps -/
 
 /-- a reader-side pc change of thread `t` keeps any phase promise, provided a new hold is on the current side -/
-theorem PhaseX.setPc_reader {rl cl : Side} {pc : Tid → Pc} {t : Tid} {p' : Pc} {k : PK}
-    (hk : PhaseX rl cl pc k)
+theorem PhaseX.setPc_reader {rl : Side} {pc : Tid → Pc} {t : Tid} {p' : Pc} {k : PK}
+    (hk : PhaseX rl pc k)
     (hnew : ∀ x, p'.held = some x → x = rl ∨ ((pc t).held = some x ∧ (pc t).regIn = p'.regIn)) :
-    PhaseX rl cl (upd pc t p') k := by
+    PhaseX rl (upd pc t p') k := by
   have key : ∀ (P : Side → Prop) (Q : Option Side → Prop),
       (∀ r x, Q (pc r).regIn → (pc r).held = some x → P x) → (Q p'.regIn → P rl) →
       ∀ r x, Q (upd pc t p' r).regIn → (upd pc t p' r).held = some x → P x := by
@@ -159,14 +156,9 @@ theorem PhaseX.setPc_reader {rl cl : Side} {pc : Tid → Pc} {t : Tid} {p' : Pc}
   | pre l =>
     obtain ⟨h1, h2⟩ := hk
     refine ⟨h1, fun r x => key (fun x => x = l) (fun _ => True) (fun r x _ h => h2 r x h) (fun _ => h1) r x trivial⟩
-  | tog l => exact hk
-  | cl l c => exact hk
-  | w1 l c =>
-    obtain ⟨h1, h2, h3⟩ := hk
-    exact ⟨h1, h2, key (fun x => x = l.flip) (fun o => o = some c.flip) h3 (fun _ => h1)⟩
-  | togc l c =>
-    obtain ⟨h1, h2, h3⟩ := hk
-    exact ⟨h1, h2, key (fun x => x = l.flip) (fun o => o = some c.flip) h3 (fun _ => h1)⟩
+  | wait l zL zR =>
+    obtain ⟨h1, h2⟩ := hk
+    exact ⟨h1, key (fun x => x = l.flip) (zReg zL zR) h2 (fun _ => h1)⟩
   | post2 l =>
     obtain ⟨h1, h2⟩ := hk
     refine ⟨h1, fun r x => key (fun x => x = l.flip) (fun _ => True) (fun r x _ h => h2 r x h) (fun _ => h1) r x trivial⟩
@@ -234,8 +226,8 @@ theorem inv_reader_noreg {s : St} {t : Tid} {p' : Pc}
 
 /-! ### steps of the mutex holder -/
 
-theorem PhaseX.congr_pc {rl cl : Side} {pc pc' : Tid → Pc} (hh : ∀ r, (pc' r).held = (pc r).held)
-    (hr : ∀ r, (pc' r).regIn = (pc r).regIn) (k : PK) : PhaseX rl cl pc' k = PhaseX rl cl pc k := by
+theorem PhaseX.congr_pc {rl : Side} {pc pc' : Tid → Pc} (hh : ∀ r, (pc' r).held = (pc r).held)
+    (hr : ∀ r, (pc' r).regIn = (pc r).regIn) (k : PK) : PhaseX rl pc' k = PhaseX rl pc k := by
   cases k <;> simp only [PhaseX, hh, hr]
 
 theorem held_upd_post {pc : Tid → Pc} {t : Tid} {q' : Pc} (hq : (pc t).post = true) (hq' : q'.post = true) (r : Tid) :
@@ -253,7 +245,7 @@ theorem regIn_upd_post {pc : Tid → Pc} {t : Tid} {q' : Pc} (hq : (pc t).post =
 /-- generic step of the thread that holds the writer mutex: it re-establishes its own phase promise -/
 theorem inv_writer {s : St} {t : Tid} {q' : Pc} {rl' cl' : Side}
     (h : Inv s) (hq : (s.pc t).post = true) (hq' : q'.post = true)
-    (hph : PhaseX rl' cl' s.pc q'.pk) :
+    (hph : PhaseX rl' s.pc q'.pk) :
     Inv ({ s with rl := rl', cl := cl' }.setPc t q') := by
   obtain ⟨h1, h2, h3, h4, h5, h6⟩ := h
   have hm : s.mtx = some t := (h4 t).1 hq
@@ -272,7 +264,7 @@ theorem inv_writer {s : St} {t : Tid} {q' : Pc} {rl' cl' : Side}
     simp at hu
     by_cases hut : u = t
     · subst hut
-      show PhaseX rl' cl' (upd s.pc u q') (upd s.pc u q' u).pk
+      show PhaseX rl' (upd s.pc u q') (upd s.pc u q' u).pk
       rw [PhaseX.congr_pc (held_upd_post hq hq') (regIn_upd_post hq hq')]
       simpa using hph
     · simp [hut] at hu
@@ -289,29 +281,26 @@ theorem inv_writer_same {s : St} {t : Tid} {q' : Pc}
 
 theorem inv_lock {s : St} {t : Tid} {op : OpId} (h : Inv s) (hpc : (s.pc t).post = false) (hr : (s.pc t).regIn = none)
     (hm : s.mtx = none) :
-    Inv ({ s with mtx := some t }.setPc t (.wLocked op)) := by
+    Inv ({ s with mtx := some t }.setPc t (.wA op s.rl)) := by
   obtain ⟨h1, h2, h3, h4, h5, h6⟩ := h
   have hnopost : ∀ u, (s.pc u).post = false := by
     intro u; cases hp : (s.pc u).post
     · rfl
     · have := (h4 u).1 hp; simp [hm] at this
-  have hheld : (s.pc t).held = none := by
-    cases hh : (s.pc t).held with
-    | none => rfl
-    | some x => obtain ⟨c, hc⟩ := held_regIn hh; rw [hr] at hc; cases hc
   have hq : Phase s .quiet := h6 hm
-  have hq' : PhaseX s.rl s.cl (upd s.pc t (.wLocked op)) .quiet := by
+  have hq' : PhaseX s.rl (upd s.pc t (.wA op s.rl)) (.pre s.rl) := by
+    refine ⟨rfl, ?_⟩
     intro r x
     by_cases hrt : r = t
     · subst hrt; simp [Pc.held]
     · simp [hrt]; exact hq r x
   refine ⟨h1, h2, ?_, ?_, ?_, ?_⟩
   · intro u c
-    have e : ({ s with mtx := some t }.setPc t (Pc.wLocked op)).reg c = s.reg c := by cases c <;> rfl
+    have e : ({ s with mtx := some t }.setPc t (Pc.wA op s.rl)).reg c = s.reg c := by cases c <;> rfl
     rw [e]; simp
     by_cases hu : u = t
     · subst hu
-      have e2 : (Pc.wLocked op).regIn = none := rfl
+      have e2 : (Pc.wA op s.rl).regIn = none := rfl
       simp [h3, hr, e2]
     · simp [hu, h3]
   · intro u; simp
@@ -322,7 +311,7 @@ theorem inv_lock {s : St} {t : Tid} {op : OpId} (h : Inv s) (hpc : (s.pc t).post
     simp at hu
     by_cases hut : u = t
     · subst hut
-      show PhaseX s.rl s.cl (upd s.pc u (Pc.wLocked op)) (upd s.pc u (Pc.wLocked op) u).pk
+      show PhaseX s.rl (upd s.pc u (Pc.wA op s.rl)) (upd s.pc u (Pc.wA op s.rl) u).pk
       rw [upd_same]; exact hq'
     · simp [hut, hnopost u] at hu
   · intro hn; simp at hn
@@ -367,13 +356,48 @@ theorem inv_unlock {s : St} {t : Tid} {q' : Pc} (h : Inv s) (hq : (s.pc t).post 
     · simp [hrt]; exact hquiet r x
 
 
+/-- reader move that changes no registration -/
+macro "rd_move" h:ident hpc:ident : tactic =>
+  `(tactic| exact inv_reader_noreg $h (by simp [$hpc:ident, Pc.post]) (by simp [Pc.post]) (by simp [$hpc:ident, Pc.regIn])
+      (by simp [$hpc:ident, Pc.held]))
+
+/-- holder move inside one protocol phase -/
+macro "w_same" h:ident hpc:ident : tactic =>
+  `(tactic| exact inv_writer_same $h (by simp [$hpc:ident, Pc.post]) (by simp [Pc.post]) (by simp [$hpc:ident, Pc.pk]))
+
 theorem inv_setVal {s : St} {t : Tid} {q' : Pc} (x : Side) (v : List OpId) (h : Inv (s.setPc t q')) :
     Inv ((s.setVal x v).setPc t q') := by
-  cases x <;> exact h.congr rfl rfl rfl rfl rfl rfl
+  cases x <;> exact h.congr rfl rfl rfl rfl rfl
 
 theorem stutter_eq {s s' : St} {e : Ev} (h : stutter s e = some s') : s' = s := by
   cases e <;> simp [stutter] at h
   all_goals (obtain ⟨_, h⟩ := h; exact h.symm)
+
+/-- a counter observed at zero: nobody is registered in it, so marking it `zeroSeen` keeps the promise -/
+theorem phase_waitSeen {rl : Side} {pc : Tid → Pc} {op : OpId} {l : Side} {zL zR : Bool} {c : Side}
+    (h : PhaseX rl pc (.wait l zL zR)) (hno : ∀ r, (pc r).regIn ≠ some c) :
+    PhaseX rl pc (waitSeen op l zL zR c).pk := by
+  obtain ⟨h1, h2⟩ := h
+  cases c
+  · refine ⟨h1, ?_⟩
+    intro r x ⟨c', e1, e2⟩ hx
+    cases c'
+    · exact absurd e1 (hno r)
+    · exact h2 r x ⟨.R, e1, e2⟩ hx
+  · refine ⟨h1, ?_⟩
+    intro r x ⟨c', e1, e2⟩ hx
+    cases c'
+    · exact h2 r x ⟨.L, e1, e2⟩ hx
+    · exact absurd e1 (hno r)
+
+/-- both counters observed at zero since the flip: every handle points to the new side -/
+theorem phase_wait_done {rl : Side} {pc : Tid → Pc} {l : Side} (h : PhaseX rl pc (.wait l true true)) :
+    PhaseX rl pc (.post2 l) := by
+  obtain ⟨h1, h2⟩ := h
+  refine ⟨h1, ?_⟩
+  intro r x hx
+  obtain ⟨c, hc⟩ := held_regIn hx
+  exact h2 r x ⟨c, hc, by cases c <;> rfl⟩ hx
 
 /-- reader move that changes no registration -/
 macro "rd_move" h:ident hpc:ident : tactic =>
@@ -390,7 +414,7 @@ theorem inv_step {s s' : St} {t : Tid} {e : Ev} (h : Inv s) (hs : step s t e = s
   -- 1 idle, call ls
   · rename_i k hpc; injection hs with hs; subst hs
     have : Inv (s.setPc t .rdCalled) := by rd_move h hpc
-    exact this.congr rfl rfl rfl rfl rfl rfl
+    exact this.congr rfl rfl rfl rfl rfl
   -- 2 rdCalled, ldCL
   · rename_i v hpc; split at hs
     · injection hs with hs; subst hs; rd_move h hpc
@@ -418,7 +442,7 @@ theorem inv_step {s s' : St} {t : Tid} {e : Ev} (h : Inv s) (hs : step s t e = s
   · rename_i c x x' v hpc; split at hs
     · injection hs with hs; subst hs
       have : Inv (s.setPc t (.rdHold c x)) := by rd_move h hpc
-      exact this.congr rfl rfl rfl rfl rfl rfl
+      exact this.congr rfl rfl rfl rfl rfl
     · simp at hs
   -- 7 rdHold, call rel
   · rename_i c x hpc; injection hs with hs; subst hs; rd_move h hpc
@@ -441,149 +465,124 @@ theorem inv_step {s s' : St} {t : Tid} {e : Ev} (h : Inv s) (hs : step s t e = s
   · rename_i op hpc; split at hs
     · rename_i hm; injection hs with hs; subst hs
       have := inv_lock (t := t) (op := op) h (by simp [hpc, Pc.post]) (by simp [hpc, Pc.regIn]) hm
-      exact this.congr rfl rfl rfl rfl rfl rfl
+      exact this.congr rfl rfl rfl rfl rfl
     · simp at hs
-  -- 12 wLocked, ldRL
-  · rename_i op v hpc; split at hs
-    · rename_i hv; subst hv; injection hs with hs; subst hs
-      have hq : (s.pc t).post = true := by simp [hpc, Pc.post]
-      have hph := h.phase t hq; rw [hpc] at hph
-      exact inv_writer (rl' := s.rl) (cl' := s.cl) h hq (by simp [Pc.post]) ⟨rfl, hph⟩
-    · simp at hs
-  -- 13 wRL, fBegin
+  -- 12 wA, fBegin
   · rename_i op l x hpc; split at hs
     · injection hs with hs; subst hs; w_same h hpc
     · simp at hs
-  -- 14 wRL, uth
+  -- 13 wA, uth
   · rename_i op l hpc; injection hs with hs; subst hs; w_same h hpc
-  -- 15 wF1, fEnd
+  -- 14 wF1, fEnd
   · rename_i op l x v hpc; split at hs
     · injection hs with hs; subst hs; apply inv_setVal; w_same h hpc
     · simp at hs
-  -- 16 wF1, uth
+  -- 15 wF1, uth
   · rename_i op l hpc; injection hs with hs; subst hs; w_same h hpc
-  -- 17 wF1d, uth
+  -- 16 wF1d, uth
   · rename_i op l hpc; injection hs with hs; subst hs; w_same h hpc
-  -- 18 wF1d, stRL
+  -- 17 wF1d, stRL
   · rename_i op l v hpc; split at hs
     · rename_i hv; subst hv; injection hs with hs; subst hs
       have hq : (s.pc t).post = true := by simp [hpc, Pc.post]
-      have := inv_writer (rl' := l.flip) (cl' := s.cl) (q' := .wTog op l) h hq (by simp [Pc.post]) (by simp [Pc.pk, PhaseX])
-      exact this.congr rfl rfl rfl rfl rfl rfl
+      have := inv_writer (rl' := l.flip) (cl' := s.cl) (q' := .wWait op l false false) h hq (by simp [Pc.post])
+        ⟨rfl, by intro r x ⟨c, _, hc⟩; cases c <;> simp [zOf] at hc⟩
+      exact this.congr rfl rfl rfl rfl rfl
     · simp at hs
-  -- 19 wRb, cpBegin
+  -- 18 wRb, cpBegin
   · rename_i op l x hpc; split at hs
     · injection hs with hs; subst hs; w_same h hpc
     · simp at hs
-  -- 20 wRbC, cpEnd
+  -- 19 wRbC, cpEnd
   · rename_i op l x v hpc; split at hs
     · injection hs with hs; subst hs; apply inv_setVal; w_same h hpc
     · simp at hs
-  -- 21 wRbD, unlock
+  -- 20 wRbD, unlock
   · rename_i op l hpc; split at hs
     · injection hs with hs; subst hs
       exact inv_unlock h (by simp [hpc, Pc.post]) (by simp [Pc.post]) (by simp [Pc.regIn]) (Or.inl ⟨l, by simp [hpc, Pc.pk]⟩)
     · simp at hs
-  -- 22 wTog, ldCL
-  · rename_i op l v hpc; split at hs
-    · rename_i hv; subst hv; injection hs with hs; subst hs
-      have hq : (s.pc t).post = true := by simp [hpc, Pc.post]
-      have hph := h.phase t hq; rw [hpc] at hph
-      exact inv_writer (rl' := s.rl) (cl' := s.cl) h hq (by simp [Pc.post]) ⟨hph, rfl⟩
-    · simp at hs
-  -- 23 wCL, ldCnt
-  · rename_i op l c c' v hpc; split at hs
-    · rename_i hg; obtain ⟨rfl, rfl⟩ := hg
+  -- 21 wWait, ldCnt
+  · rename_i op l zL zR c v hpc; split at hs
+    · rename_i hv; subst hv
       split at hs
       · rename_i hz; injection hs with hs; subst hs
         have hq : (s.pc t).post = true := by simp [hpc, Pc.post]
         have hph := h.phase t hq; rw [hpc] at hph
-        refine inv_writer (rl' := s.rl) (cl' := s.cl) h hq (by simp [Pc.post]) ⟨hph.1, hph.2, ?_⟩
-        intro r x hr _
-        have : r ∈ s.reg c.flip := by rw [h.mem]; exact hr
+        have hq' : (waitSeen op l zL zR c).post = true := by cases c <;> rfl
+        refine inv_writer (rl' := s.rl) (cl' := s.cl) h hq hq' (phase_waitSeen hph ?_)
+        intro r hr
+        have : r ∈ s.reg c := by rw [h.mem]; exact hr
         rw [List.length_eq_zero_iff.1 hz] at this; simp at this
-      · injection hs with hs; subst hs; exact h
+      · split at hs
+        · simp at hs
+        · injection hs with hs; subst hs; exact h
     · simp at hs
-  -- 24 wCL, yld
+  -- 22 wWait, yld
   · injection hs with hs; subst hs; exact h
-  -- 25 wW1, stCL
-  · rename_i op l c v hpc; split at hs
-    · rename_i hv; subst hv; injection hs with hs; subst hs
+  -- 23 wWait, stCL
+  · injection hs with hs; subst hs; exact h.congr rfl rfl rfl rfl rfl
+  -- 24 wWait, fBegin
+  · rename_i op l zL zR x hpc; split at hs
+    · rename_i hg; obtain ⟨rfl, rfl, rfl⟩ := hg
+      injection hs with hs; subst hs
       have hq : (s.pc t).post = true := by simp [hpc, Pc.post]
       have hph := h.phase t hq; rw [hpc] at hph
-      exact inv_writer (rl' := s.rl) (cl' := c.flip) h hq (by simp [Pc.post]) ⟨hph.1, rfl, hph.2.2⟩
+      exact inv_writer (rl' := s.rl) (cl' := s.cl) h hq (by simp [Pc.post]) (phase_wait_done hph)
     · simp at hs
-  -- 26 wTogC, ldCnt
-  · rename_i op l c c' v hpc; split at hs
+  -- 25 wWait, uth
+  · rename_i op l zL zR hpc; split at hs
     · rename_i hg; obtain ⟨rfl, rfl⟩ := hg
-      split at hs
-      · rename_i hz; injection hs with hs; subst hs
-        have hq : (s.pc t).post = true := by simp [hpc, Pc.post]
-        have hph := h.phase t hq; rw [hpc] at hph
-        refine inv_writer (rl' := s.rl) (cl' := s.cl) h hq (by simp [Pc.post]) ⟨hph.1, ?_⟩
-        intro r x hx
-        obtain ⟨c0, hc0⟩ := held_regIn hx
-        by_cases hcc : c0 = c'
-        · subst hcc
-          have : r ∈ s.reg c0 := by rw [h.mem]; exact hc0
-          rw [List.length_eq_zero_iff.1 hz] at this; simp at this
-        · have hc0' : c0 = c'.flip := side_ne_iff.1 hcc
-          subst hc0'; exact hph.2.2 r x hc0 hx
-      · injection hs with hs; subst hs; exact h
+      injection hs with hs; subst hs
+      have hq : (s.pc t).post = true := by simp [hpc, Pc.post]
+      have hph := h.phase t hq; rw [hpc] at hph
+      exact inv_writer (rl' := s.rl) (cl' := s.cl) h hq (by simp [Pc.post]) (phase_wait_done hph)
     · simp at hs
-  -- 27 wTogC, yld
-  · injection hs with hs; subst hs; exact h
-  -- 28 wW2, fBegin
-  · rename_i op l x hpc; split at hs
-    · injection hs with hs; subst hs; w_same h hpc
-    · simp at hs
-  -- 29 wW2, uth
-  · rename_i op l hpc; injection hs with hs; subst hs; w_same h hpc
-  -- 30 wF2, fEnd
+  -- 26 wF2, fEnd
   · rename_i op l x v hpc; split at hs
     · injection hs with hs; subst hs; apply inv_setVal; w_same h hpc
     · simp at hs
-  -- 31 wF2, uth
+  -- 27 wF2, uth
   · rename_i op l hpc; injection hs with hs; subst hs; w_same h hpc
-  -- 32 wF2d, uth
+  -- 28 wF2d, uth
   · rename_i op l hpc; injection hs with hs; subst hs; w_same h hpc
-  -- 33 wF2d, unlock
+  -- 29 wF2d, unlock
   · rename_i op l hpc; split at hs
     · injection hs with hs; subst hs
       exact inv_unlock h (by simp [hpc, Pc.post]) (by simp [Pc.post]) (by simp [Pc.regIn]) (Or.inr ⟨l, by simp [hpc, Pc.pk]⟩)
     · simp at hs
-  -- 34 wRf, cpBegin
+  -- 30 wRf, cpBegin
   · rename_i op l x hpc; split at hs
     · injection hs with hs; subst hs; w_same h hpc
     · simp at hs
-  -- 35 wRfC, cpEnd
+  -- 31 wRfC, cpEnd
   · rename_i op l x v hpc; split at hs
     · injection hs with hs; subst hs; apply inv_setVal; w_same h hpc
     · simp at hs
-  -- 36 wRfD, unlock
+  -- 32 wRfD, unlock
   · rename_i op l hpc; split at hs
     · injection hs with hs; subst hs
       exact inv_unlock h (by simp [hpc, Pc.post]) (by simp [Pc.post]) (by simp [Pc.regIn]) (Or.inr ⟨l, by simp [hpc, Pc.pk]⟩)
     · simp at hs
-  -- 37 wRet, ret
+  -- 33 wRet, ret
   · rename_i op op' hpc; split at hs
     · injection hs with hs; subst hs; rd_move h hpc
     · simp at hs
-  -- 38 wExc, exc
+  -- 34 wExc, exc
   · rename_i op fwd op' hpc; split at hs
     · injection hs with hs; subst hs; rd_move h hpc
     · simp at hs
-  -- 39 idle, fin
+  -- 35 idle, fin
   · split at hs
     · injection hs with hs; subst hs; exact h
     · simp at hs
-  -- 40 redundant loads
+  -- 36 redundant loads
   · split at hs
     · rw [stutter_eq hs]; exact h
     · simp at hs
 
 theorem inv_reachable {s : St} (h : Reachable s) : Inv s := by
-  obtain ⟨es, hes⟩ := h
-  exact runFrom_inv (fun _ _ _ _ hi hst => inv_step hi hst) inv_init hes
+  obtain ⟨b, es, hes⟩ := h
+  exact runFrom_inv (fun _ _ _ _ hi hst => inv_step hi hst) (inv_init b) hes
 
 end ConcVerif.LR
